@@ -129,6 +129,8 @@ class Gen:
                     if self.cls == "F93":
                         self.risk_used = True
                         return self.spell(self.text(True), keeps_quote=True)
+                    if rng.random() < 0.15:
+                        return b'""'          # the empty argument: an attribute with the empty value in YIN, not a missing attribute
                     return self.spell(rng.choice(PLAIN_ARGS))
                 pool = [lambda: (b"type", b"string", []), lambda: (b"units", sub_arg(), []),
                         lambda: (b"default", sub_arg(), []), lambda: (b"status", b"current", []),
